@@ -149,6 +149,8 @@ struct Hist<'a> {
   label_base: u64,
   max_keys: usize,
   max_cross: usize,
+  /// Miri: keep the number of (interpreted, very slow) curve operations minimal
+  tiny: bool,
   seed_info: Value,
 }
 
@@ -519,11 +521,15 @@ impl<'a> Hist<'a> {
   fn judge_signature(&mut self, k: usize, msg: &[u8], sig: &[u8], how: &str) {
     self.rep.inc("oracle_checks");
     let own_direct = direct_verify(&self.keys[k].pk, msg, sig);
-    let own_lib = match lib_verify(&self.keys[k].pub_jwk, msg, sig) {
-      Ok(b) => b,
-      Err(p) => {
-        self.panic("eddsa-verify", &p);
-        return;
+    let own_lib = if self.tiny && self.max_keys == 0 {
+      own_direct // Miri racing round: one verification per signature is enough
+    } else {
+      match lib_verify(&self.keys[k].pub_jwk, msg, sig) {
+        Ok(b) => b,
+        Err(p) => {
+          self.panic("eddsa-verify", &p);
+          return;
+        }
       }
     };
     self.rep.inc("own_key_verifications");
@@ -548,11 +554,15 @@ impl<'a> Hist<'a> {
     for j in others {
       self.rep.inc("cross_key_verifications");
       let d = direct_verify(&self.keys[j].pk, msg, sig);
-      let l = match lib_verify(&self.keys[j].pub_jwk, msg, sig) {
-        Ok(b) => b,
-        Err(p) => {
-          self.panic("eddsa-verify", &p);
-          false
+      let l = if self.tiny {
+        false
+      } else {
+        match lib_verify(&self.keys[j].pub_jwk, msg, sig) {
+          Ok(b) => b,
+          Err(p) => {
+            self.panic("eddsa-verify", &p);
+            false
+          }
         }
       };
       if d || l {
@@ -979,7 +989,7 @@ impl<'a> Hist<'a> {
     self.log.push("final sweep".into());
     for k in 0..self.keys.len() {
       self.expect_exists(k, "in the final sweep");
-      if !self.keys[k].signable {
+      if !self.keys[k].signable || (self.tiny && self.keys[k].alive) {
         continue;
       }
       let msg = self.message();
@@ -1011,7 +1021,7 @@ impl<'a> Hist<'a> {
   }
 }
 
-fn run_history(rep: &mut Report, rng: Rng, hist_no: u64, ops: usize, light: bool, args: &Args) {
+fn run_history(rep: &mut Report, rng: Rng, hist_no: u64, ops: usize, light: bool, tiny: bool, args: &Args) {
   let mut digests: Vec<MethodDigest> = vec![0u64, 1, u64::MAX, 0x0100_0000_0000_0000, 0xDEAD_BEEF, 42].into_iter().map(digest_from_u64).collect();
   // pack/unpack agree with the harness's own byte layout
   for (d, v) in digests.iter().zip([0u64, 1, u64::MAX, 0x0100_0000_0000_0000, 0xDEAD_BEEF, 42]) {
@@ -1039,8 +1049,9 @@ fn run_history(rep: &mut Report, rng: Rng, hist_no: u64, ops: usize, light: bool
     kinds: String::new(),
     ctr: 0,
     label_base: (args.shard + 1) * 1_000_000_000_000 + hist_no * 10_000_000_000,
-    max_keys: if light { 4 } else { 12 },
-    max_cross: if light { 2 } else { 64 },
+    max_keys: if tiny { 3 } else if light { 4 } else { 12 },
+    max_cross: if tiny { 1 } else if light { 2 } else { 64 },
+    tiny,
     seed_info: json!({"seed":args.seed,"shard":args.shard,"nshards":args.nshards,"thorough":args.thorough,"history":hist_no}),
   };
   // every history starts with one key so that sign/delete have a target early on
@@ -1191,6 +1202,7 @@ struct Races<'a> {
   rep: &'a mut Report,
   rng: Rng,
   args: &'a Args,
+  tiny: bool,
 }
 
 impl<'a> Races<'a> {
@@ -1510,7 +1522,8 @@ impl<'a> Races<'a> {
       ctr: 0,
       label_base: 0,
       max_keys: 0,
-      max_cross: 64,
+      max_cross: if self.tiny { 1 } else { 64 },
+      tiny: self.tiny,
       seed_info: case.clone(),
     };
     let Some(shared_rec) = h.judge_generated(&shared, "EdDSA") else { return };
@@ -1584,6 +1597,10 @@ fn main() {
   let args = Args::parse();
   let scale = args.extra_u64("scale", 1000);
   let light = scale < 100;
+  // under Miri every curve operation costs seconds: the sequential part shrinks to one short history
+  let tiny = cfg!(miri);
+  // --parts bitmask: 1 sequential histories, 2 single-digest races, 4 mixed races, 8 JwkMemStore races
+  let parts = args.extra_u64("parts", 15);
   let mut rep = Report::new("C15");
   rep.rule(
     "cases = (a) operations of seeded random sequential histories (generate/insert/sign/delete/exists with valid and invalid \
@@ -1596,37 +1613,37 @@ fn main() {
   let mult: u64 = if args.thorough { 50 } else { 1 };
 
   // ---- (a) sequential histories
-  let n_hist = scaled(300 * mult, scale, args.nshards, 2);
-  let ops = if light { 14 } else { 40 };
+  let n_hist = if parts & 1 == 0 { 0 } else if tiny { 1 } else { scaled(300 * mult, scale, args.nshards, 2) };
+  let ops = if tiny { 8 } else if light { 14 } else { 40 };
   let mut rng = args.rng(15);
   for hno in 0..n_hist {
     let r = rng.fork();
-    run_history(&mut rep, r, hno, ops, light, &args);
+    run_history(&mut rep, r, hno, ops, light, tiny, &args);
     if hno % 64 == 0 {
       rep.progress(hno);
     }
   }
 
   // ---- (b) racing rounds
-  let mut races = Races { rep: &mut rep, rng: args.rng(1500), args: &args };
+  let mut races = Races { rep: &mut rep, rng: args.rng(1500), args: &args, tiny };
   let thread_counts: &[usize] = if light { &[2, 4] } else { &[2, 4, 8, 16] };
-  let n_single = scaled(2000 * mult, scale, args.nshards, 4);
+  let n_single = if parts & 2 == 0 { 0 } else { scaled(2000 * mult, scale, args.nshards, 4) };
   for r in 0..n_single {
     let n = thread_counts[(r % thread_counts.len() as u64) as usize];
     let preset = r % 5 == 4;
     races.round_single(args.shard * 1_000_000 + r, n, preset);
   }
-  let n_mixed = scaled(2000 * mult, scale, args.nshards, 4);
+  let n_mixed = if parts & 4 == 0 { 0 } else { scaled(2000 * mult, scale, args.nshards, 4) };
   for r in 0..n_mixed {
     let n = if light { 2 + (r % 2) as usize } else { 2 + (r % 3) as usize };
     let per = if light { 2 + (r % 2) as usize } else { 3 + (r % 2) as usize };
     races.round_mixed(args.shard * 1_000_000 + r, n, per);
   }
-  let n_jwk = scaled(160 * mult, scale, args.nshards, 1);
+  let n_jwk = if parts & 8 == 0 { 0 } else { scaled(160 * mult, scale, args.nshards, 1) };
   for r in 0..n_jwk {
     let n = if light { 2 } else { [2usize, 4, 8][(r % 3) as usize] };
     races.round_jwk(args.shard * 1_000_000 + r, n);
   }
-  rep.note("workload", json!({"histories_per_shard":n_hist,"ops_per_history":ops,"single_rounds":n_single,"mixed_rounds":n_mixed,"jwk_rounds":n_jwk,"scale":scale}));
+  rep.note("workload", json!({"histories_per_shard":n_hist,"ops_per_history":ops,"single_rounds":n_single,"mixed_rounds":n_mixed,"jwk_rounds":n_jwk,"scale":scale,"parts":parts,"miri":tiny}));
   rep.finish();
 }
